@@ -127,6 +127,7 @@ func shrink(t *testing.T, mk func() Scenario, tape []uint32, class string, budge
 // runStarted is the real-time start of the current run (unix nanos), for the
 // in-process watchdog.
 var runStarted atomic.Int64
+var runIndex atomic.Int64
 
 func startWatchdog() {
 	limit := time.Duration(envInt("VERIF_RUN_WATCHDOG_S", 30)) * time.Second
@@ -138,7 +139,7 @@ func startWatchdog() {
 				buf := make([]byte, 1<<20)
 				n := runtime.Stack(buf, true)
 				os.Stderr.Write(buf[:n])
-				os.Stdout.WriteString("{\"fatal\":\"watchdog: a run exceeded its real-time limit (harness or CPU-bound run)\"}\n")
+				fmt.Fprintf(os.Stdout, "{\"fatal\":\"watchdog: run %d exceeded its real-time limit (harness or CPU-bound run)\"}\n", runIndex.Load())
 				os.Exit(3)
 			}
 		}
@@ -151,7 +152,11 @@ func TestWorker(t *testing.T) {
 		t.Skip("VERIF_PROP not set")
 	}
 	startWatchdog()
-	_ = logging.SetLogLevel("*", "fatal")
+	if lvl := os.Getenv("VERIF_LOG"); lvl != "" {
+		_ = logging.SetLogLevel("*", lvl)
+	} else {
+		_ = logging.SetLogLevel("*", "fatal")
+	}
 	fams := registry[prop]
 	if len(fams) == 0 {
 		fmt.Printf("{\"fatal\":\"no scenario for %s\"}\n", prop)
@@ -213,6 +218,7 @@ func TestWorker(t *testing.T) {
 		tape := NewRecordingTape(runSeed(base, prop, idx))
 		t0 := time.Now()
 		runStarted.Store(t0.UnixNano())
+		runIndex.Store(int64(idx))
 		res := RunOnce(t, fams[fam], tape, RunOpts{KeepTrace: keepEvery > 0 && idx%keepEvery == 0})
 		if res.Violation == nil && !(keepEvery > 0 && idx%keepEvery == 0) {
 			res.Tape = nil
@@ -226,4 +232,7 @@ func init() {
 	register("C24", newC24)
 	register("C07", newC07)
 	register("C03", newC03)
+	register("C04", newC04, newC04NoFault)
+	register("C05", newC05, newC05NoFault)
+	register("C23", newC23, newC23NoFault)
 }
